@@ -149,6 +149,7 @@ FuncContract.unreachable_ok_lines = _unreachable_ok_lines
 FuncContract.unreachable_ok = ()
 FuncContract.frame_check = True
 FuncContract.cuts = ()
+FuncContract.owns = ()         # locations whose object is part of self's representation (see owned_oids)
 FuncContract.only_segments = None      # verify only these segments (others are outside the subset / outside the property)
 
 
@@ -338,6 +339,11 @@ def apply_contract(eng, con, fn, args, kwargs, node, fr, caller_label=None, extr
     old = eng.state.snapshot()
     # exceptional conditions are predicates of the PRE-state: evaluate them before anything is havocked
     raise_conds = [(exc, eng.truth(eng.eval_spec(cond, env, con.qual.split(".")[0], old=old))) for exc, cond in con.raises_when]
+    for oid in owned_oids(eng, con, env, eng.state.heap):
+        # fields of an owned sub-object may change too: an alias a caller kept must not see the old values
+        for key, cur in list(eng.state.heap.items()):
+            if key[0] == oid and not isinstance(cur, (VObj, VList)):
+                eng.state.heap[key] = havoc_like(eng, cur, "owned." + key[1])
     for loc in con.modifies:
         if "." not in loc:
             # a container passed as argument and mutated in place
@@ -371,6 +377,9 @@ def apply_contract(eng, con, fn, args, kwargs, node, fr, caller_label=None, extr
         result = eng.eval_spec(con.result_is, env, con.qual.split(".")[0], old=old)
     else:
         result = eng.fresh_of_type(con.returns, "ret_" + short) if con.returns is not None else NONE
+    for fname, text in (getattr(con, "result_fields", None) or {}).items():
+        # the returned object stores (aliases) these values: identity, not just equality
+        eng.state.heap[(result.oid, fname)] = eng.eval_spec(text, env, con.qual.split(".")[0], old=old)
     env2 = dict(env, result=result, raised=VBool(False))
     recv = env.get("self")
     if isinstance(recv, VObj) and con.check_invariant and con.modifies:
@@ -572,6 +581,26 @@ def cut_index(fn, cut, eng, modname):
     raise OutOfSubset("cut anchor %r is not a top-level statement of the function" % cut.anchor)
 
 
+def owned_oids(eng, con, env, heap):
+    """objects held (at the time `heap` was taken) in the contract's `owns` locations, transitively through object-valued fields:
+    an owned sub-object is part of the owner's representation, `modifies owner.field` covers every field of it"""
+    out, todo = set(), []
+    for loc in getattr(con, "owns", ()) or ():
+        try:
+            obj, field = resolve_location(eng, loc, env)
+        except Exception:
+            continue
+        todo.append(heap.get((obj.oid, field)))
+    while todo:
+        v = todo.pop()
+        if isinstance(v, VOpt):
+            v = v.val
+        if isinstance(v, VObj) and v.oid not in out:
+            out.add(v.oid)
+            todo.extend(val for (oid, _f), val in heap.items() if oid == v.oid)
+    return out
+
+
 def check_frame(eng, con, old, env, label):
     """frame condition: every field (of an object that existed at entry) whose value differs from the entry state is
     covered by the contract's `modifies`; in-place mutation of a list/dict/set held in such a field counts as a change.
@@ -589,6 +618,7 @@ def check_frame(eng, con, old, env, label):
         if me is not None:
             for f in mon.protected:
                 allowed.add((me.oid, f))
+    owned = owned_oids(eng, con, env, old.heap) | owned_oids(eng, con, env, eng.state.heap)
     changed = []
     entry_oids = getattr(eng, "entry_oids", set())
     for key, newv in eng.state.heap.items():
@@ -606,7 +636,7 @@ def check_frame(eng, con, old, env, label):
         if same_value(eng, oldv, newv, old):
             continue
         changed.append(key)
-    bad = sorted({"%s" % f for (oid, f) in changed if (oid, f) not in allowed})
+    bad = sorted({"%s" % f for (oid, f) in changed if (oid, f) not in allowed and oid not in owned})
     for f in bad:
         eng.oblige("%s/frame:%s-not-in-modifies" % (label, f), z3.BoolVal(False),
                    clause="field .%s is written by the body but missing from the contract's modifies clause" % f, kind="frame")
